@@ -96,61 +96,6 @@ def norm_bits(h):
     return "%016x" % v
 
 
-def f16_of(x):
-    try:
-        return struct.unpack("<e", struct.pack("<e", x))[0]
-    except OverflowError:
-        return float("inf") if x > 0 else float("-inf")
-
-
-def imm_round(x):
-    """bytecodegen.rs Float -> MoveImmF when HFloat::try_from succeeds (|f16(x) - x| < 0.00001)"""
-    if x != x:
-        return x
-    hv = f16_of(x)
-    return hv if abs(hv - x) < 0.00001 else x
-
-
-def half_rounded_literals(sx):
-    """class predicate of finding F19 on an s-expression: float literals the stage-0 VM loads as f16 immediates"""
-    out = []
-    def walk(t):
-        if isinstance(t, list):
-            if len(t) == 2 and t[0] == "lit-f" and isinstance(t[1], str):
-                v = bits_to_float(t[1])
-                if fbits(imm_round(v)) != fbits(v):
-                    out.append(t[1])
-            else:
-                for x in t:
-                    walk(x)
-    walk(sx)
-    return out
-
-
-def round_literals(sx):
-    if isinstance(sx, list):
-        if len(sx) == 2 and sx[0] == "lit-f" and isinstance(sx[1], str):
-            return ["lit-f", fbits(imm_round(bits_to_float(sx[1])))]
-        return [round_literals(x) for x in sx]
-    return sx
-
-
-FLOAT_TOKEN = re.compile(r"(?<![\w.])(\d+\.\d+(?:e-?\d+)?|\d+e-?\d+)(?![\w.])")
-
-
-def source_half_rounded(src):
-    """class predicate of finding F19 on source text"""
-    out = []
-    for t in FLOAT_TOKEN.findall(src):
-        try:
-            v = float(t)
-        except ValueError:
-            continue
-        if imm_round(v) != v:
-            out.append(t)
-    return out
-
-
 TY_UNK = ["topq", Q("unknown")]
 TY_NUM = ["topq", Q("number")]
 NONE = "#n"
@@ -564,7 +509,7 @@ def has_form(s, head):
 
 
 def quoted_has_match(prog):
-    """class predicate of finding F18: a Match node inside quoted code"""
+    """class predicate of finding F27: a Match node inside quoted code"""
     def walk(s, quoted):
         if not isinstance(s, list) or not s:
             return False
@@ -649,7 +594,6 @@ def run(ck):
     ctx_count, nontrivial, both_err, ok_both = {}, 0, 0, 0
     distinct = set()
     match_known = 0
-    f19_known = 0
     for idx, (c, a) in enumerate(zip(cases, ans)):
         ptxt = show(c["prog"])
         distinct.add(ptxt)
@@ -688,13 +632,8 @@ def run(ck):
                 if real_st1 is None:
                     prop_fail.append(("quoting a normal-form expression fails to expand: %s" % real_err, replay))
                 elif real_st1 != want:
-                    hl = half_rounded_literals(c["prog"][1])
-                    if hl and real_st1 == show(round_literals(c["prog"][1])) and "float-literal-half-precision" in findings:
-                        f19_known += 1
-                        ck.known(findings["float-literal-half-precision"], "literal bits %s in %s" % (hl[0], ptxt[:160]))
-                    else:
-                        prop_fail.append(("quote-then-splice is not the identity on a normal-form expression", replay))
-        # known finding F18: match inside quoted code
+                    prop_fail.append(("quote-then-splice is not the identity on a normal-form expression", replay))
+        # known finding F27: match inside quoted code
         if real_st1 is None and quoted_has_match(c["prog"]) and "code_match" in unregistered:
             if "match-in-quoted-code" in findings:
                 match_known += 1
@@ -703,8 +642,7 @@ def run(ck):
     ck.coverage["ast_contexts"] = ctx_count
     ck.coverage["ast_expanded_equal"] = ok_both
     ck.coverage["ast_both_reject"] = both_err
-    ck.coverage["ast_match_in_quote_known_F18"] = match_known
-    ck.coverage["ast_half_precision_literal_known_F19"] = f19_known
+    ck.coverage["ast_match_in_quote_known_F27"] = match_known
     for c, a in list(zip(cases, ans))[:2]:
         ck.sample({"input": show(c["prog"])[:400], "implementation": {k: (v[:300] if isinstance(v, str) else v) for k, v in a.items()}})
 
@@ -794,12 +732,12 @@ def run(ck):
             rp["manual_answer"] = {k: v for k, v in b.items() if k in ("vm", "wasm", "vm_err", "wasm_err", "real_err")}
             if "vm" not in a and "vm" in b and re.search(r"\bmatch\b", c["staged"]) and "match-in-quoted-code" in findings and "code_match" in unregistered:
                 ck.known(findings["match-in-quoted-code"], c["staged"].split("#stage(macro)")[-1].replace("\n", " ")[:160] + " -> " + str(a.get("vm_err")))
-                ck.add("src_known_F18")
+                ck.add("src_known_F27")
                 continue
             if re.search(r"let\s*\{", c["staged"].split("#stage(macro)")[-1]) and "record-let-pattern-in-quoted-code" in findings and "vm" in b \
                     and a.get("vm") != b.get("vm"):
                 ck.known(findings["record-let-pattern-in-quoted-code"], c["staged"].split("#stage(macro)")[-1].replace("\n", " ")[:160] + " -> " + str(a.get("vm", a.get("vm_err"))))
-                ck.add("src_known_F20")
+                ck.add("src_known_F28")
                 continue
             if "vm" not in a:
                 if str(a.get("expand_err", "")).startswith(("type-error", "parse-error", "top-type-error", "not-staged")):
@@ -812,25 +750,14 @@ def run(ck):
             if "vm" not in b:
                 # generator produced an invalid expansion: not evidence
                 continue
-            hl = source_half_rounded(c["staged"])
-            def known_f19(backend):
-                if hl and "float-literal-half-precision" in findings:
-                    ck.known(findings["float-literal-half-precision"], "literal %s, %s output %s vs %s for the expansion: %s" %
-                             (hl[0], backend, a[backend][:2], b[backend][:2], c["staged"][-120:].replace("\n", " ")))
-                    return True
-                return False
             if a["vm"] != b["vm"]:
-                if not known_f19("vm"):
-                    prop_fail.append(("staged program and its hand-written expansion produce different output (VM)", rp))
+                prop_fail.append(("staged program and its hand-written expansion produce different output (VM)", rp))
             else:
                 src_ok += 1
             if c["wasm"] and "wasm" in a and "wasm" in b:
                 src_wasm += 1
                 if a["wasm"] != b["wasm"]:
-                    if known_f19("wasm"):
-                        ck.add("src_wasm_differ_known_F19")
-                    else:
-                        prop_fail.append(("staged program and its hand-written expansion produce different output (WASM)", rp))
+                    prop_fail.append(("staged program and its hand-written expansion produce different output (WASM)", rp))
                 if a["wasm"] != a["vm"]:
                     # backend disagreement on the staged program is C02's concern; only note it
                     ck.add("vm_wasm_differ_on_staged_program")
@@ -915,9 +842,9 @@ def finish(ck):
                      "evaluate to) of its normal form; the normal form is exactly what the encoding imposes (norm1: parentheses dropped, missing "
                      "else / let body / then filled with unit, let annotations dropped, `_`, record and nested tuple let-patterns flattened, "
                      "qualified names mangled, nested quote -> block, lambda return type filled) and is the identity on normal forms "
-                     "(C09_quote_identity). C09_expand_agrees extends this to whole staged programs (let-bound code, functions returning code, "
-                     "recursion). Refuted parts are theorems too and recorded findings: match in quoted code cannot be expanded (F18), float "
-                     "literals pass through a half-precision immediate (F19), record let-patterns are lost (F20). The model is tied to /repo by "
+                     "(C09_quote_identity: without escapes the generated code is the expression itself). C09_expand_agrees extends this to whole staged programs (let-bound code, functions returning code, "
+                     "recursion). Refuted parts are theorems too and recorded findings: match in quoted code cannot be expanded (F27), "
+                     "record let-patterns are lost (F28); float literals arrive exactly (C09_literal_exact; F19 was repaired in /repo). The model is tied to /repo by "
                      "the combinator tables regenerated from source (C09_arity_agree) and by running model and real compiler on the same generated "
                      "programs (AST level over all Expr forms x staging contexts; source level over staging contexts; fixtures), comparing the "
                      "translate output and the expanded AST structurally; outputs of staged programs are compared with hand-written expansions "
